@@ -900,6 +900,10 @@ func isSubseq(a, b []uint64) bool {
 func monitor(c kcase, obs kobs, built []*builtBatch) (vs []core.Violation, outside []string) {
 	add := func(sig, what string) {
 		vs = append(vs, core.Violation{Property: "C11", Signature: sig, What: what, Case: c})
+		if strings.HasPrefix(sig, "written-with-unaccepted-record") {
+			// the same history under C01 (see the S3 component)
+			vs = append(vs, core.Violation{Property: "C01", Signature: "kinesis/" + sig, What: what, Case: c})
+		}
 	}
 	add17 := func(sig, what string) {
 		vs = append(vs, core.Violation{Property: "C17", Signature: sig, What: what, Case: c})
